@@ -649,14 +649,24 @@ def run(ctx):
         ctx.saw_fn(sp_d)
         # decoder biases: length = (b & 0x7F) + BIAS in the zero arm and the literal arm
         biases = {}
+        def masks_with(e, k_):
+            """`x & K` / `K & x` with K a literal or a named constant"""
+            e = hirq.strip(e)
+            while e.get("k") == "cast":
+                e = hirq.strip(e["e"])
+            return e.get("k") == "bin" and e["op"] == "&" and (hirq.const_int(e["l"]) == k_ or hirq.const_int(e["r"]) == k_)
         for n in hirq.find(sp_d.hir["body"], "if"):
-            if "& 128" in hirq.render(n["c"]) or "& 0x80" in hirq.render(n["c"]):
-                for arm, name in ((n["then"], "literal"), (n.get("else"), "zero")):
+            cnd = hirq.strip(n["c"])
+            if cnd.get("k") == "bin" and cnd["op"] in ("!=", "==") and (masks_with(cnd["l"], 0x80) or masks_with(cnd["r"], 0x80)) and 0 in (hirq.const_int(cnd["l"]), hirq.const_int(cnd["r"])):
+                set_arm, clear_arm = (n["then"], n.get("else")) if cnd["op"] == "!=" else (n.get("else"), n["then"])
+                for arm, name in ((set_arm, "literal"), (clear_arm, "zero")):
                     if arm is None:
                         continue
-                    m_ = re.search(r"\(\(?one_byte & 127\)? \+ (\d+)\)", hirq.render(arm)) or re.search(r"& 127\) \+ (\d+)", hirq.render(arm))
-                    if m_:
-                        biases[name] = int(m_.group(1))
+                    for x in hirq.walk(arm):
+                        if x.get("k") == "bin" and x["op"] == "+":
+                            for a_, b_ in ((x["l"], x["r"]), (x["r"], x["l"])):
+                                if masks_with(a_, 0x7F) and hirq.const_int(b_) is not None and name not in biases:
+                                    biases[name] = hirq.const_int(b_)
         if set(biases) != {"literal", "zero"}:
             ctx.bad(R_sparse, "sparse|decoder-shape", sp_d.where, "decoder length formulas not recognised (%s)" % biases, "cannot relate encoder and decoder")
         else:
